@@ -57,9 +57,9 @@ PROPS = {
     'C05': dict(
         level='proof',
         explain='MemQueue/MemQueues/MultiRecordLog operations proved against the sequential queue-map spec (QView, LogView) written from the property text, '
-                'over the whole view; range / get_range / position_to_idx are bounded Kani stand-ins, never counted as proved.',
+                'over the whole view, including the wrapper append_record (= append_records of a one-element batch, @sameas) and position_to_idx (over the assumed std contract of binary_search_by_key, cross-checked bounded by K-p2i); range / get_range are bounded Kani stand-ins, never counted as proved.',
         kani_quick=[], kani_thorough=['K-p2i'] + ['K-getrange-r%d' % r for r in range(4)] + ['K-range-%s' % k for k in ('ii', 'ie', 'iu', 'ei', 'ee', 'eu', 'ui', 'ue', 'uu')],
-        trusted=['RollingBuffer::get_range (bounded K-getrange)', 'MemQueue::position_to_idx (bounded K-p2i)', 'MemQueue::range (bounded K-range)',
+        trusted=['RollingBuffer::get_range (bounded K-getrange)', '<[T]>::binary_search_by_key, iter::once (assumed std contracts; K-p2i cross-checks the former, bounded)', 'MemQueue::range (bounded K-range)',
                  'MultiRecord::{serialize,serialize_with_pos} are VERIFIED over the assumed contracts of bytes::Buf (R10: a cursor over a byte string; chunk() a non-empty prefix while bytes remain) and of (start..).zip(it) (R19); the payload iterator is assumed to obey vstd\'s iterator laws and to be finite (iter_ok, a precondition of append_records)', 'HashMap::get_mut (assumed std contract)', 'RollingBuffer::extend'],
         not_decided=['summary, list_queues (iterator adapters over HashMap): unverified', 'MemQueues::range / MultiRecordLog::range one-line pass-throughs'],
     ),
